@@ -69,6 +69,16 @@ def _case(draw):
         # ignore-response-error-level=non-fatal relaxes on-error=abort for the task that carries it, and for that task only
         tol = draw(st.sampled_from(["none", "others", "others", "faulted"]))
         if tol == "others":
+            # preferably the failing (strict) task is listed after tolerant siblings of its own parallel element
+            later = [(el, j) for el in case["schedule"] if "parallel" in el for j in range(1, len(el["parallel"]))]
+            if later and draw(st.integers(0, 3)):
+                el, j = later[draw(st.integers(0, len(later) - 1))]
+                leaf = el["parallel"][j]
+                fault["task"], fault["client"] = leaf["name"], draw(st.integers(0, leaf["clients"] - 1))
+                for other in el["parallel"][:j]:
+                    other["tolerant"] = True
+                if draw(st.booleans()):
+                    case["hosts"] = [1] * len(case["hosts"])  # one worker per host: the tasks' clients share it
             for other in leaves:
                 if other is not leaf and draw(st.integers(0, 3)):
                     other["tolerant"] = True
